@@ -2,6 +2,7 @@ package props
 
 import (
 	"fmt"
+	"go/types"
 	"strings"
 
 	"golang.org/x/tools/go/ssa"
@@ -37,6 +38,8 @@ func runC14(c *Ctx) {
 	c.Rule("C14.O9", "E4", "a connection transferred to the poller is registered (AddTransferredConn) only after its open handler has run, or its callbacks are queued behind it: otherwise a message that arrives right after the handshake is handled while the open handler is still running", 2)
 	c.Rule("C14.O12", "E4", "a message is refused as a whole: with a bounded send queue WriteMessage tests the queue's room for the message (a comparison over len(sendQueue) and sendQueueSize) before the first fragment is written; a per-frame refusal half way leaves the fragments already queued on the wire and the next message starts inside an unfinished one", 1)
 	c14WholeRefusal(c)
+	c.Rule("C14.O13", "E4", "a payload handed to a queued callback is released by that job: the queuing function releases it only behind isBlockingMod (the callback ran inline) or behind a refused Execute", 2)
+	c14PayloadReleasedByJob(c)
 	c.Rule("C14.O11", "E4", "the blocking readers honour a hand-over that happened inside a failing Parse: every exit after Parse passes the Parser.ParserCloser test (or is the transferred edge), so a WebSocket connection created by an upgrade in the same read as a bad frame is cleaned up and its close callback runs", 2)
 	c14ReaderHandOver(c)
 	c.Rule("C14.O10", "E5", "the close callback runs after the message callbacks: inside the websocket package CloseAndClean is called only from the deferred cleanup of the function that runs the blocking read loop (every other closer goes through the connection's Close and leaves the callback to the reader or to the engine's close hook)", 1)
@@ -666,4 +669,65 @@ func c14WholeRefusal(c *Ctx) {
 	}
 	c.Cond(ok, "C14.O12", key, c.Pos(first), "a test over len(sendQueue) and sendQueueSize dominates the fragment loop",
 		"WriteMessage writes the fragments of a message one by one into a bounded send queue without testing the room for all of them first: when the queue fills up half way it returns ErrMessageSendQuqueIsFull while the fragments already queued go out, so the peer is left inside an unfinished message and the next message is a protocol error")
+	if !ok {
+		return
+	}
+	// the frames are counted on the bytes that are cut into frames
+	loop := fi.LoopBlocks(first.Block())
+	var cut ssa.Value
+	for b := range loop {
+		for _, in := range b.Instrs {
+			phi, isPhi := in.(*ssa.Phi)
+			if !isPhi {
+				continue
+			}
+			if sl, isSl := phi.Type().Underlying().(*types.Slice); !isSl || !types.Identical(sl.Elem(), types.Typ[types.Byte]) {
+				continue
+			}
+			for k, pr := range b.Preds {
+				if !loop[pr] {
+					cut = ir.Resolve(phi.Edges[k])
+				}
+			}
+		}
+	}
+	key2 := fnKey(c.P, fn, "frames counted on what is cut into frames")
+	if cut == nil {
+		c.Unres("C14.O12", key2, "the fragment loop's data value was not found")
+		return
+	}
+	counted := false
+	var lens []string
+	for _, t := range fi.Ifs() {
+		l, sz := mentions(t.Cond)
+		if !l || !sz || !fi.CanReach(t, first) {
+			continue
+		}
+		seen := map[ssa.Value]bool{}
+		var walk func(v ssa.Value, d int)
+		walk = func(v ssa.Value, d int) {
+			if v == nil || seen[v] || d > 10 {
+				return
+			}
+			seen[v] = true
+			if x, isLen := ir.IsLenOf(v); isLen {
+				if sl, isSl := x.Type().Underlying().(*types.Slice); isSl && types.Identical(sl.Elem(), types.Typ[types.Byte]) {
+					lens = append(lens, c.P.Desc(x))
+					if ir.Resolve(x) == cut {
+						counted = true
+					}
+				}
+			}
+			if in, ok := v.(ssa.Instruction); ok {
+				for _, op := range in.Operands(nil) {
+					if *op != nil {
+						walk(*op, d+1)
+					}
+				}
+			}
+		}
+		walk(t.Cond, 0)
+	}
+	c.Cond(counted, "C14.O12", key2, c.Pos(first), "the room test measures the value the fragment loop starts from",
+		fmt.Sprintf("the room test counts frames on %v, but the fragment loop cuts %s (the data after compression): an incompressible message grows by a few bytes when deflated and needs one frame more than was budgeted, so its last fragment is refused after the others were queued and the peer is left inside an unfinished message", lens, c.P.Desc(cut)))
 }
